@@ -174,7 +174,9 @@ def check_equivariance(desc):
             A0 = og.dense(og.boundary_operator(fam, op, d0, d0, t0, k0, parameters=par))
             A1 = og.dense(og.boundary_operator(fam, op, d1, d1, t1, k1, parameters=par))
         want = (s ** _EXP[op]) * (Qt.T @ A0 @ Qd)
-        errs.append(og.relerr(A1, want))
+        # absolute floor: e.g. the magnetic-field operator of a flat screen is identically zero (rounding noise only)
+        floor = 1e-10 * (s * D) ** _EXP[op]
+        errs.append(float(np.max(np.abs(A1 - want))) / max(float(np.max(np.abs(A1))), float(np.max(np.abs(want))), floor))
     sig = f"{tk}/{fam}_{op}/{sdt['kind']}x{sdd['kind']}"
     if exact:
         if errs[0] > 2e-10:
@@ -228,7 +230,8 @@ def check_orientation(desc):
         else:
             A0 = og.dense(og.boundary_operator(fam, op, d0, d0, t0, k, parameters=par))
             A1 = og.dense(og.boundary_operator(fam, op, d1, d1, t1, k, parameters=par))
-        errs.append(og.relerr(A1, Qt.T @ A0 @ Qd))
+        want = Qt.T @ A0 @ Qd
+        errs.append(float(np.max(np.abs(A1 - want))) / max(float(np.max(np.abs(A1))), float(np.max(np.abs(want))), 1e-10 * D ** _EXP[op]))
     sig = f"orientation/{fam}_{op}/{tk}x{dk}"
     if errs[-1] > 1e-7 and errs[-1] > 0.02 * errs[0]:
         _fail(sig, f"swapped_normals={S} vs physically reversed elements: ||A_rev - Q^T A_flag Q|| = {['%.1e' % e for e in errs]} on singular orders "
